@@ -1721,10 +1721,20 @@ func (c *compiler) optimizeCodeOps() {
 	if verifOptOff(11) {
 		return
 	}
+	targets := make(map[*code]struct{})
+	for _, code := range c.codes {
+		switch code.op {
+		case opfork, opforktrybegin, opforkalt, opjump, opjumpifnot:
+			targets[c.codes[code.v.(int)]] = struct{}{}
+		}
+	}
 	for i, next := len(c.codes)-1, (*code)(nil); i >= 0; i-- {
 		code := c.codes[i]
 		switch code.op {
 		case oppush, opdup, opload:
+			if _, ok := targets[next]; ok {
+				break // next is also reached by a jump, do not fuse
+			}
 			switch next.op {
 			case oppop:
 				code.op = opnop
